@@ -296,7 +296,7 @@ def _proxy_hash(self):
     raise Unsupported(f"hash of symbolic {type(self).__name__}")
 
 
-CONCRETIZE_LIMIT = 24
+CONCRETIZE_LIMIT = 64
 
 
 def _concretize_hash(x, eng):
@@ -330,6 +330,9 @@ def fix(x):
             return {k: fix(v) for k, v in x.items()}
         return x
     eng = engine()
+    if _isinstance(x, SymStr):
+        # character by character: the number of forks per call site stays bounded by the alphabet size
+        return "".join(c if _isinstance(c, _str) else _chr(fix(SymInt(c))) for c in x.items)
     for _ in range(CONCRETIZE_LIMIT):
         tag = eng.peek_tag()
         v = tag[1] if tag is not None else concretize(x, eng.path_model())
